@@ -13,7 +13,11 @@ META = {
             "leaks), no lost wake-up (a waiter without pending signal has its wait condition true, for workers and for the main thread). "
             "Deadlock freedom is proved: every reachable non-final state has an enabled transition that is neither a spurious wake-up nor a "
             "timer expiry (the owner of the head outbuf can always move), and the all-threads-blocked state is unreachable; early lzma_end "
-            "joins only exited workers and nothing touches a joined worker. Tie to the code: protocol constants regenerated from the source (Gen/C07.lean, "
+            "joins only exited workers and nothing touches a joined worker. Exact memory accounting, the read_output_and_wait invariant "
+            "(queue empty => the next threaded Block can start, given that SEQ_BLOCK_INIT only threads Blocks that fit memlimit_threading) "
+            "and termination are proved: a measure strictly decreases on every internal transition whose Block decoder call makes "
+            "progress, so every run has at most muInit + (33+4*threads)*calls internal steps and every call returns under every schedule. "
+            "Tie to the code: protocol constants regenerated from the source (Gen/C07.lean, "
             "bridged by decide); the real decoder runs under a controlled scheduler (link-time pthread interposition, seeded random / PCT / "
             "non-preemptive schedules, forced time-outs and spurious wake-ups, deadlock = all threads blocked) on valid, corrupted, "
             "truncated, size-less, per-Block-filter and concatenated inputs, and must deliver exactly the bytes and status of "
@@ -25,8 +29,10 @@ META = {
             "the C side (the Lean theorems quantify over all of them for the model); preemption only at synchronisation operations, "
             "data races between them are observed by TSan at run time only (three genuine races are known findings). Not modelled: "
             "allocation failure paths, LZMA_*_CHECK informational returns, the wrapper's LZMA_BUF_ERROR (truncated input is covered by "
-            "the direct oracle only), output-buffer cache, mem_cached. Not proved in Lean: termination (no fairness assumption in the model), "
-            "the memory-accounting bound (compared at run time by the trace inclusion), any status claim under LZMA_FAIL_FAST.",
+            "the direct oracle only), output-buffer cache, mem_cached. Not proved in Lean: the truncated-input clause 'finitely many LZMA_OK then LZMA_BUF_ERROR' "
+            "(the no-progress counter is in lzma_code's wrapper, C11's model; checked by the direct oracle), any status claim under "
+            "LZMA_FAIL_FAST. The termination theorem's hypothesis (every Block decoder call makes progress) and the input hypothesis "
+            "(threaded Blocks fit memlimit_threading) are checked on every replayed trace by the driver.",
     "technique": "Lean 4 invariant proofs over an LTS + controlled-scheduler differential testing + trace inclusion + TSan",
 }
 
@@ -88,10 +94,23 @@ def gen_case(rng, e, idx, real=False, pre_pool=None):
     p["endat"] = rng.randrange(0, 40) if rng.random() < 0.1 else -1
     p["prog"] = 1 if rng.random() < 0.3 else 0
     p["maxcalls"] = 400000
-    if pre_pool and rng.random() < 0.08:
-        # abandon a decode of another file on the same handle, then re-initialise with the same thread count
+    mf = e.get("memfig")
+    if mf and rng.random() < 0.35:
+        # fine sweep of memlimit_threading around "one Block fits" .. "+ a few cached output buffers" (the window in which a
+        # wrong memory figure in the can-start test makes a valid file fail is one output buffer wide), few threads
+        m, b = mf[rng.randrange(len(mf))]
+        p["mlt"] = max(1, m - 2048 + rng.randrange(0, 3 * b + 4096))
+        p["threads"] = rng.choice((1, 1, 2, 3))
+        p["mls"] = HUGE
+        if failfast:
+            p["flags"] = flags & ~F_FAILFAST
+    if pre_pool and rng.random() < 0.10:
+        # abandon a decode of another file on the same handle, then re-initialise: same thread count, or a larger thread
+        # count for the abandoned decode (re-initialisation with fewer threads while workers are still running)
         p["pre"] = rng.choice(pre_pool)["path"]
         p["precalls"] = rng.randrange(1, 25)
+        if rng.random() < 0.5:
+            p["prethreads"] = p["threads"] + rng.randrange(1, 5)
     if real:
         p["mode"] = "real"
         p["jitter"] = rng.choice((0, 20, 80, 200))
